@@ -335,8 +335,15 @@ macro_rules! bezier_impl_cubic_axis {
                 // There are two Real solutions for the equation
                 let discriminant_sqrt = discriminant.sqrt();
 
-                let first_extremum = (-b - discriminant_sqrt) / (a + a);
-                let second_extremum = (-b + discriminant_sqrt) / (a + a);
+                // Numerically stable quadratic formula: compute the root that doesn't
+                // cancel, and get the other one from the product of the roots (c/a).
+                let (first_extremum, second_extremum) = if b < T::zero() {
+                    let q = (-b + discriminant_sqrt) / two;
+                    (c / q, q / a)
+                } else {
+                    let q = (-b - discriminant_sqrt) / two;
+                    (q / a, c / q)
+                };
 
                 if is_between01(first_extremum) {
                     if is_between01(second_extremum) {
